@@ -13,7 +13,7 @@ cfg = importlib.import_module("props." + pid)
 import_repo()
 known = [k for k in load_known_findings() if k.get("property") == pid and k.get("status") == "finding"]
 for s in seeds:
-    ctx = runner.Ctx(pid, "quick", s)
+    ctx = runner.Ctx(pid, os.environ.get("VERIF_TIER", "quick"), s)
     if hasattr(cfg, "pregen"):
         cfg.pregen(ctx)
     res = cfg.run(ctx)
